@@ -113,6 +113,7 @@ class Scenario:
         self.mutex, self.fill, self.grain, self.auto, self.hdef = mutex, fill, grain, auto, hdef
         self.lines = []
         self.meta = meta or {}
+        self.group_names = {}
 
     # ---- sizes as the library computes them
     @property
@@ -229,8 +230,9 @@ class Scenario:
             o.append("auto %s" % self.auto)
         if self.hdef:
             o.append("hdef %d %d %d %d" % tuple(self.hdef))
-        for dis, cmds in self.groups:
-            o.append("group %d" % (1 if dis else 0))
+        for gi, (dis, cmds) in enumerate(self.groups):
+            gn = self.group_names.get(gi)
+            o.append("group %d%s" % (1 if dis else 0, "" if gn is None else " " + _opt(gn)))
             for c in cmds:
                 o.append("cmd %s %s %d %d %d %d %d %d %d %d" % (
                     hx(c.name), _opt(c.desc), c.hw, c.hr, c.hx, c.ht, c.need_all, c.only_test, c.disable, c.implicit))
